@@ -469,11 +469,15 @@ def correspondence(ctx):
 
     hdr_main = HEADER + ('Definition ftok_eqb (a b : ftok) : bool := match a, b with FChar x, FChar y => x =? y | FPos, FPos => true '
                          '| FNamed x, FNamed y => str_eqb x y | _, _ => false end.\n')
-    bad = run_bools(ctx, exprs, header=hdr_main)
+    ctx.mkscratch()
+    from concurrent.futures import ThreadPoolExecutor
+    with ThreadPoolExecutor(max_workers=2) as pool:
+        fut2 = pool.submit(run_bools, ctx, like_exprs, hdr, 150, 'like')
+        bad = run_bools(ctx, exprs, header=hdr_main)
+        bad2 = fut2.result()
     for i in bad[:20]:
         kind, inp, impl = meta[i]
         disagreements.append({'what': 'model and implementation differ (%s)' % kind, 'input': inp, 'impl': impl, 'coq_case': exprs[i][:1500]})
-    bad2 = run_bools(ctx, like_exprs, header=hdr, chunk=150, name='like')
     for i in bad2[:10]:
         kind, inp, impl = like_meta[i]
         disagreements.append({'what': 'like_match differs from the linked SQLite', 'input': inp, 'impl': impl, 'coq_case': like_exprs[i][:1500]})
